@@ -528,6 +528,7 @@ func runC15(c *Check) {
 	}, "known-probes")
 	c15MultiFile(c, pool)
 	c15CrossChunkNames(c, pool)
+	c15WrappedExternalImports(c, pool)
 	c15MangleProps(c, pool)
 }
 
